@@ -477,7 +477,7 @@ def c15_layers(env):
     ls.append(strace_layer(env))
     ls.append(sections_layer(env))
     ls.append(traits_layer(env))
-    ls.append(miri_layer(env, 0.05, threads=4, seeds=None if env.quick() else "0..8", budget=30 if env.quick() else 600))
+    ls.append(miri_layer(env, 0.02 if env.quick() else 0.05, threads=4, seeds=None if env.quick() else "0..8", budget=30 if env.quick() else 600))
     if not env.quick():
         ls.append(tsan_layer(env))
     return ls
